@@ -66,7 +66,7 @@ Fixpoint overwrite (data : list N) (cells : list nat) (vals : list N) : list N :
 
 Record sobs := mkSobs {
   s_dims : nat * nat; s_empty : bool; s_iter : list N; s_gets : list N; s_muts : list N; s_fill : list N;
-  s_fillwith : list N; s_insert : list (list N); s_map : list N; s_clear : list N; s_set : list N;
+  s_fillwith : list N; s_insert : list N; s_map : list N; s_clear : list N; s_set : list N;
   s_nth : list N; s_wpos : list N }.
 
 Definition spec_obs (H W : nat) (ops : list vop) (ir ic : N) (items : list N) (nk : nat) : sobs :=
@@ -88,11 +88,11 @@ Definition spec_obs (H W : nat) (ops : list vop) (ir ic : N) (items : list N) (n
      s_fill := 1%N :: overwrite data cells (map (fun _ => FILLV) cells);
      s_fillwith := 1%N :: overwrite data cells (map (fun p => fw_fun (fst p) (snd p)
                                       (nth_default_N data (root_index W (win_coord w (fst p) (snd p))))) ps);
-     (* the acceptable outcomes of insert: the items land on the window cells from row-major index
-        `index` on; an index that does not fit usize may instead panic before anything is written *)
-     s_insert := if (18446744073709551615 <=? index)%N then [[0%N]; 1%N :: data]
-                 else if (nn (length cells) <=? index)%N then [1%N :: data]
-                 else [1%N :: overwrite data (skipn (N.to_nat index) cells) items];
+     (* insert: the items land on the window cells from row-major index `index` on.  A position whose
+        index does not fit usize (or is usize::MAX) is not a position of any window: there the window
+        semantics only demand the frame condition, checked by insert_ok below *)
+     s_insert := if (nn (length cells) <=? index)%N then 1%N :: data
+                 else 1%N :: overwrite data (skipn (N.to_nat index) cells) items;
      s_map := 1%N :: map (fun p => fw_fun (fst p) (snd p)
                     (nth_default_N data (root_index W (win_coord w (fst p) (snd p))))) ps;
      s_clear := 1%N :: overwrite data cells (map (fun _ => 0%N) cells);
@@ -106,6 +106,27 @@ Definition spec_obs (H W : nat) (ops : list vop) (ir ic : N) (items : list N) (n
                nn (if S nk <? total then S nk mod w_w w else 0);
                at_k (S nk)];
      s_wpos := flat_map (fun pv => [nn (fst (fst pv)); nn (snd (fst pv)); snd pv]) (combine ps vals) |}.
+
+(* frame condition: same length, and every element that is not a window cell is unchanged *)
+Fixpoint frame_from (k : nat) (cells : list nat) (data d : list N) : bool :=
+  match data, d with
+  | [], [] => true
+  | x :: data', y :: d' => (existsb (Nat.eqb k) cells || (x =? y)%N) && frame_from (S k) cells data' d'
+  | _, _ => false
+  end.
+
+(* what insert may do: exactly the specified writes; for an index of usize::MAX or beyond (no such
+   position exists in any window) a panic, or any result that leaves everything outside the window alone *)
+Definition insert_ok (H W : nat) (ops : list vop) (ir ic : N) (expected ins : list N) : bool :=
+  let w := win_chain (win_root H W) ops in
+  let index := (ir * nn (w_w w) + ic)%N in
+  if (18446744073709551615 <=? index)%N then
+    match ins with
+    | [0%N] => true
+    | 1%N :: d => frame_from 0 (win_cells W w) (init_data H W) d
+    | _ => false
+    end
+  else nlist_eqb expected ins.
 
 Inductive c07_case :=
 | S07 (H W : nat) (ops : list vop) (ir ic : N) (items : list N) (nk : nat)
@@ -127,7 +148,7 @@ Definition c07_check (c : c07_case) : bool * bool :=
         nlist_eqb [nth 3 shape 0%N; nth 2 shape 0%N] [nn (fst (s_dims sp)); nn (snd (s_dims sp))]
         && Bool.eqb (s_empty sp) empty && nlist_eqb (s_iter sp) it && nlist_eqb (s_gets sp) gets
         && nlist_eqb (s_muts sp) muts && nlist_eqb (s_fill sp) fil && nlist_eqb (s_fillwith sp) filw
-        && existsb (fun x => nlist_eqb x ins) (s_insert sp) && nlist_eqb (s_map sp) mp
+        && insert_ok H W ops ir ic (s_insert sp) ins && nlist_eqb (s_map sp) mp
         && nlist_eqb (s_clear sp) clr && nlist_eqb (s_gets sp) getm && nlist_eqb (s_set sp) setv
         && nlist_eqb (s_nth sp) nthv && nlist_eqb (s_wpos sp) wpos )
   end.
